@@ -56,9 +56,17 @@ pub fn extract_annotations(
         if let Some(cap) = re.captures(line) {
             let str_value = &cap[3];
             if kind == "Field Elements" {
-                res.extend(str_value.split(',').filter_map(BigUint::from_str_hex));
-            } else if let Some(val) = BigUint::from_str_hex(str_value) {
-                res.push(val)
+                for s in str_value.split(',') {
+                    res.push(
+                        BigUint::from_str_hex(s)
+                            .ok_or(anyhow::anyhow!("Unable to parse annotation value {s}"))?,
+                    );
+                }
+            } else {
+                res.push(
+                    BigUint::from_str_hex(str_value)
+                        .ok_or(anyhow::anyhow!("Unable to parse annotation value {str_value}"))?,
+                );
             }
         }
     }
